@@ -791,7 +791,7 @@ class Interp:
     def const_val(self, st, c):
         ty = c['ty']
         if 'fn' in c:
-            return ('fnitem', c['fn'])
+            return ('fnitem', c['fn'], tuple(c.get('generics') or ()))
         if 'int' in c:
             if ty == 'bool':
                 return B(c['int'] != 0)
